@@ -138,3 +138,37 @@ theorem resultAt_eq_meaning' (S : EinsumS) (env : String → Pts) (hS : S.WF) (h
   resultAt_eq_meaning S env hS hnd hlen hP (ext_of_inBounds S env hnd hlen hb) hin hout houtin σ hl
 
 end C01
+
+namespace C01
+open Nest
+
+/-- **C01 for a single `take` term, order-free form**: the emitted nest of `Z[..] = take(A, B, …, sel)` (any number of
+    operands, inputs without stored zeros or duplicates, no empty rank-0 operand) computes the Einsum's meaning:
+    the selected operand where all operands are non-zero -/
+theorem run_eq_meaning_take (S : EinsumS) (env : String → Pts) (t : TermS) (hterms : S.terms = [t])
+    (hnd : S.loop.Nodup) (hlen : S.exts.length = S.loop.length)
+    (hT : TakeInv (levels S) { kind := t.kind, scal := t.scal, ops := t.tensors.map fun x => initOperand S.loop x (env x.name) })
+    (hb : InBounds S env) (hin : InputsWF S env) (τ : List Nat) :
+    sumAt τ (run (levels S) (initTerms S env)) = meaning (S.loop.zip S.exts) (concord S.loop S.outRanks) S.terms env τ := by
+  have hst : initTerms S env = [{ kind := t.kind, scal := t.scal, ops := t.tensors.map fun x => initOperand S.loop x (env x.name) }] := by
+    simp [initTerms, hterms]
+  have hE := ext_of_inBounds S env hnd hlen hb
+  have hW : LevelWF (levels S) (initTerms S env) := by
+    rw [hst]
+    -- a single term: every level is trivially uniform
+    have : ∀ (ls : List (Bool × Nat)) (st : TermSt), LevelWF ls [st] := by
+      intro ls
+      induction ls with
+      | nil => intro _; trivial
+      | cons l ls ih =>
+        intro st
+        refine ⟨?_, fun c => ih (st.step c)⟩
+        cases h : hasActive st.ops
+        · exact Or.inr (fun st' hst' => by simp at hst'; subst hst'; exact h)
+        · exact Or.inl (fun st' hst' => by simp at hst'; subst hst'; exact h)
+    exact this _ _
+  rw [hst] at hE hW ⊢
+  rw [run_eq_spec_single (levels S) _ hT hW hE τ, ← hst]
+  exact spec_eq_meaning S env hnd hlen hin τ
+
+end C01
